@@ -516,7 +516,21 @@ def type_dedup(F):
     for fn in F.find_fns(self_adt=MT):
         if fn.get("body") is None or not (fn["name"].startswith("add_") and fn["name"] != "add_type" and "TypeID" in (fn.get("ret") or "")):
             continue
-        rets = list(_tail_values(fn["body"])) + [peel(x["e"]) for x in walk(fn["body"]) if x.get("k") == "Ret" and isinstance(x.get("e"), dict)]
+        def own_rets(node, out):
+            # `return`s of this function: not those inside a closure or inside the body of a helper inlined at a call
+            if isinstance(node, list):
+                for v in node:
+                    own_rets(v, out)
+            elif isinstance(node, dict):
+                if node.get("k") == "Closure":
+                    return
+                if node.get("k") == "Ret" and isinstance(node.get("e"), dict):
+                    out.append(peel(node["e"]))
+                for k_, v in node.items():
+                    if k_ != "inlined" and isinstance(v, (dict, list)):
+                        own_rets(v, out)
+        rets = list(_tail_values(fn["body"]))
+        own_rets(fn["body"], rets)
         for rv in rets:
             rv = peel(rv) if isinstance(rv, dict) else {}
             okr = None
